@@ -224,3 +224,35 @@ def alias_signature(root):
                 stack.append((c, p + name))
     groups = sorted(sorted(v) for v in paths.values() if len(v) > 1)
     return groups
+
+
+K_SHARE = 101
+
+
+def mark_span_sharing(t, cs):
+    """result tree of a read -> the same tree in which the content cell of a STYLE end node whose content dict IS the
+    content dict of the matching start node (stack discipline over the caption's node list) is the marker [101, []].
+    This is how the harness tells the read model which end nodes the real reader made share their start node's dict."""
+    if t is None or not isinstance(cs, CaptionSet):
+        return t
+    t = json.loads(json.dumps(t))
+    set_cells = dict((c[0], c) for c in t[1])
+    lang_cells = set_cells[1][1][1]
+    for lang_cell, lang in zip(lang_cells, cs.get_languages()):
+        caps_real = list(cs.get_captions(lang))
+        cap_cells = [c for c in lang_cell[1][1] if c[0] is None]
+        for cap_cell, cap in zip(cap_cells, caps_real):
+            node_cells = [c for c in dict((c[0], c) for c in cap_cell[1][1])[3][1][1] if c[0] is None]
+            stack = []
+            for ncell, node in zip(node_cells, cap.nodes):
+                if node.type_ != CaptionNode.STYLE:
+                    continue
+                if node.start:
+                    stack.append(node.content)
+                else:
+                    top = stack.pop() if stack else None
+                    if top is not None and top is node.content:
+                        for c in ncell[1][1]:
+                            if c[0] == 2:
+                                c[1] = [K_SHARE, []]
+    return t
